@@ -736,3 +736,119 @@ class Gen(object):
 
     def g_advance(self):
         return {"op": "advance", "s": self.pick([1, 60, 86400, 200000])}
+
+
+# ---- valid-by-construction add / remove (C09: nothing but a cardinality could refuse them) ----
+FRESH = ["n%d" % i for i in range(12)]
+SAFE_VALUES = {
+    "int": [0, 1, -7, 42], "float": [0.0, 1.5, -2.25], "string": ["a", "hello world", "s"],
+    "boolean": [True, False], "date": [{"date": "2020-01-02"}, {"date": "1999-12-31"}],
+}
+
+
+def _fresh_name(gen, container, kind):
+    lst = container.sections if kind == "sec" else container.properties
+    used = set(c.name for c in lst)
+    free = [n for n in FRESH if n not in used]
+    return gen.pick(free)
+
+
+def g_add_valid(self):
+    r = self.rng.random()
+    if r < 0.35:
+        props = [p for p in self.props() if p.dtype in SAFE_VALUES and len(p.values) < 6]
+        p = self.pick(props)
+        if p is None:
+            return None
+        v = self.pick(SAFE_VALUES[p.dtype])
+        route = self.pick(["v_append", "v_extend", "v_insert", "set_values"])
+        if route == "v_append":
+            return {"op": "v_append", "x": self.ref(p), "v": v, "strict": True, "valid": True}
+        if route == "v_extend":
+            return {"op": "v_extend", "x": self.ref(p), "v": {"list": [v, self.pick(SAFE_VALUES[p.dtype])]},
+                    "strict": True, "valid": True}
+        if route == "v_insert":
+            if not p.values:
+                return None
+            return {"op": "v_insert", "x": self.ref(p), "i": self.rng.randint(0, len(p.values)),
+                    "v": v, "strict": True, "valid": True}
+        n = self.rng.randint(1, 5)
+        return {"op": "set_values", "x": self.ref(p),
+                "v": {"list": [self.pick(SAFE_VALUES[p.dtype]) for _ in range(n)]}, "valid": True}
+    if not self.room(2):
+        return None
+    kind = "sec" if r < 0.7 else "prop"
+    conts = self.conts() if kind == "sec" else self.secs()
+    t = self.pick(conts)
+    if t is None:
+        return None
+    name = _fresh_name(self, t, kind)
+    if name is None:
+        return None
+    route = self.pick(["create", "ctor", "attach"])
+    if route == "create":
+        if kind == "sec":
+            return {"op": "create_section", "t": self.cref(t), "name": name, "type": "t1", "valid": True}
+        dt = self.pick(sorted(SAFE_VALUES))
+        return {"op": "create_property", "t": self.ref(t), "name": name, "dtype": dt,
+                "values": self.pick(SAFE_VALUES[dt]), "valid": True}
+    if route == "ctor":
+        if kind == "sec":
+            return {"op": "new_sec", "name": name, "type": "t1", "parent": self.cref(t), "valid": True}
+        dt = self.pick(sorted(SAFE_VALUES))
+        return {"op": "new_prop", "name": name, "dtype": dt, "values": self.pick(SAFE_VALUES[dt]),
+                "parent": self.ref(t), "valid": True}
+    # attach an existing detached childless object whose name is free at the destination
+    pool = [x for x in self.U.of_kind(kind) if x.parent is None and
+            not any(c.name == x.name for c in (t.sections if kind == "sec" else t.properties))
+            and x is not t and not any(a is x for a in self.U.ancestors(t))]
+    x = self.pick(pool)
+    if x is None:
+        return None
+    how = self.pick(["append", "insert", "extend", "set_parent"])
+    if how == "append":
+        return {"op": "append", "t": self.cref(t), "x": self.ref(x), "valid": True}
+    if how == "insert":
+        return {"op": "insert", "t": self.cref(t), "i": 0, "x": self.ref(x), "valid": True}
+    if how == "extend":
+        return {"op": "extend", "t": self.cref(t), "xs": [self.ref(x)], "valid": True}
+    return {"op": "set_parent", "x": self.ref(x), "p": self.cref(t), "valid": True}
+
+
+def g_remove_valid(self):
+    r = self.rng.random()
+    if r < 0.35:
+        props = [p for p in self.props() if p.values]
+        p = self.pick(props)
+        if p is None:
+            return None
+        return {"op": "v_remove_at", "x": self.ref(p), "i": self.rng.randrange(len(p.values)),
+                "valid": True}
+    nodes = [x for x in self.nodes() if x.parent is not None]
+    x = self.pick(nodes)
+    if x is None:
+        return None
+    if self.chance(0.5):
+        return {"op": "remove", "t": self.cref(x.parent), "x": self.ref(x), "valid": True}
+    return {"op": "set_parent", "x": self.ref(x), "p": ["none"], "valid": True}
+
+
+Gen.g_add_valid = g_add_valid
+Gen.g_remove_valid = g_remove_valid
+
+
+def g_hold_values(self):
+    """Property(values=<list the harness keeps>): the held list becomes an alias."""
+    if len(self.U.aliases) >= 6:
+        return None
+    if self.U.aliases and self.chance(0.5) and self.room():
+        a = self.rng.randrange(len(self.U.aliases))
+        if self.chance(0.5) and self.props():
+            return {"op": "set_values", "x": self.ref(self.pick(self.props())), "v": {"alias": a}}
+        return {"op": "new_prop", "name": self.name(), "values": {"alias": a}}
+    items = self.pick([[1, 2, 3], ["a", "b"], [["1", "2"], ["3", "4"]], ["(1;2)", "(3;4)"], [1.5]])
+    return {"op": "hold_list", "v": {"list": [{"list": i} if isinstance(i, list) else i
+                                               for i in items]}}
+
+
+Gen.g_hold_values = g_hold_values
